@@ -93,10 +93,49 @@ def link_kind_ok(cache, path, data, kind):
 def scenario(rng, idx):
     return dict(cls=("HashFileDB", "LocalHashFileDB")[idx % 2], existing=LINKS[(idx // 2) % 3], configured=LINKS[(idx // 6) % 3],
                 with_state=bool((idx // 18) % 2), relink=rng.random() < 0.6, prior=rand_tree(rng), target=rand_tree(rng),
-                same=rng.random() < 0.35, mix=(rng.randrange(1, 10**6) if rng.random() < 0.4 else 0))
+                single=rng.random() < 0.12, same=rng.random() < 0.35, mix=(rng.randrange(1, 10**6) if rng.random() < 0.4 else 0))
+
+
+def run_single_file(sc):
+    """a single-file target: the ROOT entry has no metadata of its own; the prior file is an edited ordinary copy"""
+    cls = {"HashFileDB": HashFileDB, "LocalHashFileDB": LocalHashFileDB}[sc["cls"]]
+    problems = []
+    with tempfile.TemporaryDirectory(dir="/var/tmp") as tmp:
+        root = os.path.join(tmp, "repo")
+        os.makedirs(root)
+        cache = cls(FS, os.path.join(tmp, "cache"))
+        os.makedirs(cache.path)
+        state = State(root, os.path.join(tmp, "state")) if sc["with_state"] else None
+        try:
+            ws = os.path.join(root, "data.bin")
+            src = os.path.join(tmp, "stage.bin")
+            open(src, "wb").write(b"target bytes")
+            staging, _, tobj = build(cache, src, FS, "md5")
+            transfer(staging, cache, {tobj.hash_info}, shallow=False)
+            cache.cache_types = [sc["existing"]]
+            checkout(ws, FS, tobj, cache, force=True, state=state)
+            if os.path.islink(ws) or os.stat(ws).st_nlink > 1:
+                os.unlink(ws)
+            else:
+                os.chmod(ws, 0o644)
+            open(ws, "wb").write(b"somebody edited this")  # an edited ordinary copy
+            cache.cache_types = [sc["configured"]]
+            checkout(ws, FS, tobj, cache, force=True, relink=sc["relink"], state=state)
+            if open(ws, "rb").read() != b"target bytes":
+                problems.append(f"single file: forced checkout (relink={sc['relink']}, {sc['configured']}) left {open(ws, 'rb').read()[:30]!r}")
+            elif checkout(ws, FS, tobj, cache, force=True, state=state):
+                problems.append("single file: second checkout did not report 'nothing to do'")
+        except Exception as e:  # noqa: BLE001
+            problems.append(f"single file: raised {type(e).__name__}: {e}")
+        finally:
+            if state is not None:
+                state.close()
+    return problems
 
 
 def run_one(sc):
+    if sc.get("single"):
+        return run_single_file(sc)
     cls = {"HashFileDB": HashFileDB, "LocalHashFileDB": LocalHashFileDB}[sc["cls"]]
     problems = []
     with tempfile.TemporaryDirectory(dir="/var/tmp") as tmp:
@@ -181,7 +220,7 @@ def main():
             failures.append({"scenario": {k: (v if not isinstance(v, dict) else {a: b.decode() for a, b in v.items()}) for k, v in sc.items()}, "problems": ps})
     print(json.dumps({"evaluations": evals, "distinct_nontrivial": evals, "n_failures": len(failures), "failures": failures[:4],
                       "bound": f"{n} seeded (prior, target) pairs: <= 6 files in <= 3 levels, duplicate contents and empty files, 3x3 link types, "
-                               "2 store classes, with/without state, relink on/off; prior/target agree in kind"}))
+                               "2 store classes, with/without state, relink on/off, single-file targets over an edited copy; prior/target agree in kind"}))
 
 
 if __name__ == "__main__":
